@@ -771,3 +771,16 @@ def consistent_reach(func, sources, is_target, block_node=None, block_edge=None,
             prev[key] = (cur.id, known, k)
             dq.append((m, kn))
     return None
+
+
+def if_test_texts(func, nested=False):
+    """normalised texts of the conditions of all `if` statements, an outer `not (...)` stripped: presence checks must not depend on which
+    branch the author put first"""
+    out = []
+    for n in (ast.walk(func) if nested else own_nodes(func)):
+        if isinstance(n, ast.If):
+            t = n.test
+            while isinstance(t, ast.UnaryOp) and isinstance(t.op, ast.Not):
+                t = t.operand
+            out.append(norm(t))
+    return out
